@@ -1,13 +1,255 @@
-"""C09 — disconnect and shutdown cleanup: no residual state, exact counters."""
+"""C09 — disconnect and shutdown cleanup: no residual state, exact counters.
+
+Two correspondences: the broker family's (checks/brokerfam.py: the machine of coq/Broker/Model.v against the
+real broker built WITHOUT the `introspection` feature) and `introdb`: the introspection database
+(broker/src/introspection_database.rs + the cfg(feature = "introspection") handlers of broker.rs, model
+coq/Broker/IntroDb.v) against the real broker built WITH that feature (harness `introdb`, its own cargo
+invocation with `--features broker-introspection`; driver extract/introdb_driver.ml)."""
+import json
+import os
+import shutil
+
 from checks import brokerfam
+from vlib import broker, core
+from vlib.core import BuildLock
 
 PROP = "C09"
-PINS = {}
+PINS = {
+    "C09_introdb_no_panic": "forall s e ch site, ireachable s -> ilegal s e -> istep s e ch <> IPanic site",
+    "C09_introdb_invariant": "forall s, ireachable s -> idb_inv s",
+    "C09_introdb_release": "istep s e ch = IDone (s', o) -> idb_no_ref c s'",
+    "C09_introdb_empty": "forall s, ireachable s -> i_conns s = ∅ -> i_entries s = ∅ /\\ i_qmap s = ∅",
+}
+
+# introdb: (shards, histories per shard, max steps); rounds of IDB_ROUND histories per harness invocation
+IDB_SIZES = {"quick": (16, 4000, 80), "thorough": (16, 240000, 100)}
+IDB_ROUND = 8000
+
+IDB_ASSUME = [
+    "introdb step: aldrin-broker built with features channel+statistics+introspection (only the `introdb` harness "
+    "binary; cargo feature `broker-introspection` of the harness); modelled, not verified: "
+    "broker/src/introspection_database.rs and the cfg(feature = \"introspection\") bodies of register_introspection / "
+    "query_introspection / query_introspection_reply / remove_introspection_conn (+ shutdown_connection, handle_event, "
+    "the remove_conns stack) of broker/src/broker.rs as coq/Broker/IntroDb.v; the bodies of the database functions are "
+    "pinned text for text by tools/rs2v_broker.py (INTRODB_PINNED_FNS)",
+    "introdb step: the provider drawn by rand::rng().random_range(0..conn_ids.len()) is a model input (an index); the "
+    "driver searches the choice lists that explain each observed step and keeps every explanation (which task-dropped "
+    "connection a failed send removed is not visible in a trace); broker-made query serials are compared up to a "
+    "bijection (they are handed out in hash-map iteration order); theorems hold for every choice list",
+    "introdb step: introspection payloads are opaque ids in the model; the harness uses serialized "
+    "aldrin_core::introspection::Introspection values and identifies them by their type id after deserializing",
+]
+
+
+def _idb_build(o):
+    ok = True
+    with BuildLock():
+        core.regen_for(o, broker.GEN_FILES)
+        okc, outc, _ = core.cargo_build(["introdb"], features=["broker-introspection"])
+        if not okc:
+            o.obligation_broken("cargo build of the introdb harness (aldrin-broker with the introspection feature) "
+                                "against /repo", outc)
+            ok = False
+        core.ensure_makefile()
+        okb, outb, _ = core.coq_build(["Broker/IntroDb.v"])
+        if not okb:
+            o.obligation_broken("coq build of the executable introspection-database model", outb)
+            return False
+        okd, outd = core.build_driver("ExtractIntroDb.v", "introdb_model", "introdb_driver.ml", "introdb_driver")
+        if not okd:
+            o.obligation_broken("extraction/compilation of the introdb model driver", outd)
+            ok = False
+    return ok
+
+
+def _feature_off_in_broker_bin(o):
+    """the ordinary broker harness must keep aldrin-broker's introspection feature OFF: ask cargo which features
+    the default (no --features) resolution gives aldrin-broker"""
+    rc, out, _ = core.sh("cargo tree --offline -e features -i aldrin-broker 2>&1 | head -40",
+                         cwd=os.path.join(core.VERIF, "harness"), timeout=120)
+    on = [l for l in out.splitlines() if 'aldrin-broker feature "introspection"' in l]
+    if rc != 0:
+        o.notes.append("cargo tree not available: feature separation checked only through the broker correspondence "
+                       "(RegisterIntrospection/QueryIntrospection agree with the feature-off model)")
+        return None
+    if on:
+        o.obligation_broken("harness/Cargo.toml: the default feature set enables aldrin-broker/introspection "
+                            "(the broker correspondence models the feature-off handlers)", out)
+        return False
+    return True
+
+
+def _workdir(name):
+    d = os.path.join(core.WORK, PROP, name)
+    shutil.rmtree(d, ignore_errors=True)
+    os.makedirs(d, exist_ok=True)
+    return d
+
+
+def _merge(tot, s):
+    for k in ("histories", "steps", "panics", "monitor_verdicts"):
+        tot[k] = tot.get(k, 0) + s.get(k, 0)
+    kk = tot.setdefault("kinds", {})
+    for k, v in s.get("kinds", {}).items():
+        kk[k] = kk.get(k, 0) + v
+
+
+def introdb(o, tier, seed):
+    """extra correspondence step of C09: the introspection database under disconnects"""
+    o.assumptions += IDB_ASSUME
+    o.coverage["trusted_base"] = o.assumptions
+    if not _idb_build(o):
+        return
+    feat = _feature_off_in_broker_bin(o)
+    shards, per, steps = IDB_SIZES[tier]
+    exe = core.harness_bin("introdb")
+    drv = os.path.join(core.BUILD, "introdb_driver")
+    dirs, cmds = [], []
+    for i in range(shards):
+        base = _workdir(f"idb{i}")
+        rounds = (per + IDB_ROUND - 1) // IDB_ROUND
+        parts = []
+        for r in range(rounds):
+            d = os.path.join(base, f"r{r}")
+            os.makedirs(d)
+            dirs.append(d)
+            k = min(IDB_ROUND, per - r * IDB_ROUND)
+            # traces that agree are deleted at once (a thorough run writes several GB otherwise)
+            parts.append(f"VERIF_SEED={(seed * 1000 + i) * 1000 + r} {exe} gen {d} {k} {steps}"
+                         f" && (ulimit -s unlimited 2>/dev/null || ulimit -s 1000000; {drv} {d}/trace.txt {d}/verdict.txt)"
+                         f" && grep -m 60 -E '^(EV|OUT|CLOSED) ' {d}/trace.txt > {d}/sample.txt"
+                         f" ; if grep -q -E '^(DIVERGE|ABANDONED)' {d}/verdict.txt; then :; else rm -f {d}/trace.txt; fi")
+        cmds.append(" && ".join(f"( {p} )" for p in parts))
+    res = core.parallel(cmds, timeout=3000)
+    for (rc, out), i in zip(res, range(shards)):
+        if rc != 0:
+            o.obligation_broken(f"introdb harness/driver run of shard {i} (exit {rc})", out)
+    ok, nsteps, divs = broker.read_verdicts(dirs)
+    tot = {}
+    summ = {"abandoned": 0, "choice_steps": 0, "choice_leaves": 0, "multi_candidate_steps": 0, "max_leaves": 0,
+            "max_candidates": 0}
+    sample = []
+    for d in dirs:
+        try:
+            _merge(tot, json.load(open(os.path.join(d, "stats.json"))))
+        except Exception as ex:  # noqa: BLE001
+            o.obligation_broken(f"introdb stats in {d}", str(ex))
+        try:
+            for line in open(os.path.join(d, "verdict.txt"), encoding="utf-8", errors="replace"):
+                if line.startswith("SUMMARY"):
+                    for kv in line.split()[1:]:
+                        k, _, v = kv.partition("=")
+                        if k in ("max_leaves", "max_candidates"):
+                            summ[k] = max(summ[k], int(v))
+                        elif k in summ:
+                            summ[k] += int(v)
+        except OSError:
+            pass
+        if not sample and os.path.exists(os.path.join(d, "sample.txt")):
+            sample = open(os.path.join(d, "sample.txt"), encoding="utf-8", errors="replace").read().split("\n")[:60]
+    divs.sort(key=lambda d: d["step"])
+    for d in divs[:50]:
+        if d["what"].startswith(("DRIVER", "HARNESS")):
+            o.obligation_broken("introdb correspondence machinery: " + d["what"], json.dumps(d)[:3000])
+        else:
+            o.violation("introdb " + d["what"], {"introdb_history": d["events"], "failing_step": d["step"], "event": d["ev"],
+                                                  "impl_output": d["impl"], "model_output": d["model"],
+                                                  "history_seed": d["seed"]})
+    kinds = tot.get("kinds", {})
+    o.coverage["introdb"] = {
+        "rule": "one history = 2-6 initial connections (protocol 1.14-1.20; later connects up to 12) on the real broker "
+                "built with the introspection feature; injected operations: RegisterIntrospection (a serialized set of "
+                "1-4 of five type ids; sometimes an undecodable value), QueryIntrospection for registered and "
+                "unregistered types, QueryIntrospectionReply Some/None from the asked provider / from a connection that "
+                "was not asked / with a free serial, connect, disconnect by closing the transport / Shutdown message / "
+                "BrokerHandle::shutdown_connection / dropping the connection task (also with its last request queued), "
+                "idle shutdown; at the end task-dropped connections are forced out, every outstanding provider query "
+                "is answered, every connection leaves in random order and manner, idle shutdown must complete. One "
+                "injected operation = one broker step run to quiescence = one step of the Coq machine; per step the "
+                "multiset of messages per connection (provider-query serials up to a bijection), the connections the "
+                "broker closed, num_connections and num_introspections (against the model's map sizes) and the exit "
+                "flag are compared. evaluations = executed steps; distinct_nontrivial = histories (distinct seeds) that "
+                "agree on every step",
+        "evaluations": nsteps,
+        "histories": tot.get("histories", 0),
+        "histories_fully_agreeing": ok,
+        "distinct_nontrivial": ok,
+        "divergences": len(divs),
+        "implementation_panics": tot.get("panics", 0),
+        "monitor_verdicts": tot.get("monitor_verdicts", 0),
+        "message_kinds_in_and_out": kinds,
+        "provider_choice_search": summ,
+        "broker_bin_keeps_introspection_feature_off": feat,
+        "monitors": "broker task never panics; every query of a live connection answered exactly once after all "
+                    "providers answered (except the documented self-Unavailable case); no message after Shutdown; no "
+                    "introspection entry left when no connection is left; idle shutdown completes",
+        "sample": sample,
+    }
+    if isinstance(o.coverage.get("evaluations"), int):
+        o.coverage["evaluations_broker"] = o.coverage["evaluations"]
+        o.coverage["evaluations"] += nsteps
+    else:
+        o.coverage["evaluations"] = nsteps
 
 
 def run(tier, seed):
-    return brokerfam.run_check(PROP, "Props/C09.v", PINS, ["all", "channels", "registry", "all"], tier, seed)
+    return brokerfam.run_check(PROP, "Props/C09.v", PINS, ["all", "channels", "registry", "all"], tier, seed,
+                               extra=introdb)
+
+
+def _idb_replay_once(events):
+    d = _workdir("idb-replay")
+    ev = os.path.join(d, "events.txt")
+    with open(ev, "w", encoding="utf-8") as f:
+        for e in events:
+            f.write(e.strip() + "\n")
+    rc, out, _ = core.sh(f"{core.harness_bin('introdb')} replay {d} {ev}"
+                         f" && (ulimit -s unlimited 2>/dev/null || ulimit -s 1000000; "
+                         f"{os.path.join(core.BUILD, 'introdb_driver')} {d}/trace.txt {d}/verdict.txt)", timeout=600)
+    ok, steps, divs = broker.read_verdicts([d])
+    return d, rc, out, ok, steps, divs
 
 
 def replay(path):
-    return brokerfam.replay(PROP, path)
+    r = json.load(open(path))
+    events = r.get("introdb_history")
+    if events is None:
+        return brokerfam.replay(PROP, path)
+    print("recorded violation:")
+    print(json.dumps({k: v for k, v in r.items() if k != "introdb_history"}, indent=1)[:3000])
+    print(f"introdb history: {len(events)} injected events (recorded harness seed {r.get('history_seed')})")
+    for e in events:
+        print("  EV", e)
+    o = core.Outcome(PROP, "replay", 0)
+    if not _idb_build(o):
+        print("BUILD FAILED: " + "; ".join(str(b)[:2000] for b in o.broken))
+        return 2
+    # the provider the broker draws (rand) differs from run to run: the history is re-executed several times,
+    # answers of providers are re-targeted to whoever was asked this time (harness `introdb replay`)
+    tries = max(1, int(os.environ.get("VERIF_REPLAY_TRIES", "12") or "12"))
+    agreeing = 0
+    for attempt in range(1, tries + 1):
+        d, rc, out, ok, steps, divs = _idb_replay_once(events)
+        if rc != 0:
+            print(f"REPLAY MACHINERY FAILED in {d} (exit {rc}): {out[:2000]}")
+            return 2
+        if not divs:
+            agreeing += 1
+            print(f"re-execution {attempt}: fresh verdict: OK replay steps={steps}")
+            continue
+        for dv in divs:
+            print(f"re-execution {attempt} in {d} (trace.txt = what the real broker did, verdict.txt = comparison with "
+                  f"the model): fresh verdict: DIVERGE step={dv['step']} what={dv['what']}")
+            print(f"  event: {dv['ev']}")
+            print(f"  impl : {dv['impl']}")
+            print(f"  model: {dv['model']}")
+            if dv["what"].startswith(("DRIVER", "HARNESS")):
+                print("  the history could not be re-executed to the end (harness/driver error)")
+                return 2
+            same = "the same class as recorded" if ("introdb " + dv["what"]) == r.get("what") else f"recorded class: {r.get('what')}"
+            print(f"  REPRODUCED: violation of {PROP} ({same}) in re-execution {attempt} of at most {tries}"
+                  + (f"; {agreeing} earlier re-execution(s) agreed with the model (the provider the broker draws is random)"
+                     if agreeing else ""))
+            return 1
+    print(f"the recorded violation did NOT reproduce in {tries} re-executions: all agreed with the model on every step")
+    return 0
